@@ -425,7 +425,34 @@ def r01_8(chk):
     chk.floor("R01.8", 2, "copy of the stand-alone and of the collection-backed view classes")
 
 
+def r01_9(chk):
+    chk.rule("R01.9", "building a sequence from an existing view does not move that view: the `_coerce_to_seqview` overloads (old and new type) never store an attribute on the object they were handed (`data.offset = ...`) -- the offset is set on a copy; otherwise Sequence(seq=s, annotation_offset=5) changes s.annotation_offset and s.parent_coordinates() as a side effect")
+    n = 0
+    for rel in ("core/sequence.py", "core/new_sequence.py"):
+        m = chk.repo.module(rel)
+        fns = [f for f in m.tree.body if isinstance(f, ast.FunctionDef) and (f.name == "_coerce_to_seqview" or (f.name == "_" and any("_coerce_to_seqview.register" in norm(d) for d in f.decorator_list)))]
+        if not fns:
+            raise AnalysisError(f"{rel}: _coerce_to_seqview not found")
+        for fn in fns:
+            ps = params_of(fn)
+            if not ps:
+                continue
+            p0 = ps[0]
+            ann = norm(fn.args.args[0].annotation) if fn.args.args[0].annotation is not None else "object"
+            stores = [st for st in walk_no_nested(fn) if isinstance(st, (ast.Assign, ast.AugAssign)) and any(isinstance(t, ast.Attribute) and isinstance(t.value, ast.Name) and t.value.id == p0 for t in (st.targets if isinstance(st, ast.Assign) else [st.target]))]
+            bad = None
+            for st in stores:
+                # fine when the parameter was re-bound to a copy before the store
+                rebinds = [r for r in walk_no_nested(fn) if isinstance(r, ast.Assign) and any(isinstance(t, ast.Name) and t.id == p0 for t in r.targets) and r.lineno < st.lineno and isinstance(r.value, ast.Call) and (norm(r.value.func).endswith(".copy") or norm(r.value.func) in ("copy.copy", "copy.deepcopy", "deepcopy") or norm(r.value.func).endswith("__class__"))]
+                if not rebinds:
+                    bad = st
+            n += 1
+            chk.decide(bad is None, "R01.9", key(m, f"_coerce_to_seqview[{ann}]", "the given object is not modified"), m.loc(bad if bad is not None else fn), "no attribute store on the argument (or on a copy only)", f"`{norm(bad) if bad is not None else ''}` writes into the view the caller passed in: t = Sequence(seq=s, annotation_offset=5) moves s itself to ('s', 5, 15, 1)")
+    chk.floor("R01.9", 6, "overloads of _coerce_to_seqview in both modules")
+
+
 def run(chk):
+    r01_9(chk)
     r01_8(chk)
     r01_7(chk)
     r01_6(chk)
